@@ -19,10 +19,22 @@ def run(sd):
     line = [l for l in r.stdout.split("\n") if l.startswith(sd.name + " " + prop)]
     return sd.name, prop, (line[0].split(" ", 2)[2] if line else r.stdout.strip()[-200:]), f"{time.time() - t:.0f}s"
 rows = []
+# seeds of one property share Gen/Cxx.lean and the driver of that property: run them one after the other, different
+# properties in parallel
+groups: dict[str, list] = {}
+for sd in seeds:
+    meta = json.loads((sd / "meta.json").read_text())
+    groups.setdefault(meta.get("property") or sd.name.lstrip("R-").split("-")[0], []).append(sd)
+def run_group(sds):
+    out = []
+    for sd in sds:
+        out.append(run(sd))
+        print(*out[-1], flush=True)
+    return out
 with cf.ThreadPoolExecutor(jobs) as ex:
-    for name, prop, res, dt in ex.map(run, seeds):
-        print(name, prop, res, dt)
-        rows.append((name, prop, res, dt))
+    for res in ex.map(run_group, groups.values()):
+        rows.extend(res)
+rows.sort()
 out = ["# Seeded changes vs checks", "", "| seed | property | result of `./check <property>` (quick) on the patched tree | time |", "|---|---|---|---|"]
 for name, prop, res, dt in rows:
     meta = json.loads((V / "seeded" / name / "meta.json").read_text())
